@@ -8,6 +8,27 @@ from . import core, lin, render
 SPEC_DIR = os.path.join(core.SPEC, "e2e")
 
 
+def enumerable(c):
+    """The same expressions over enumerable domains: a real declaration becomes the integer range
+    inside it (unbounded sides are cut at -2 / 3), so that the answer can be judged by enumeration."""
+    if not c.get("dom") or c.get("fam") == "E" or c["id"].startswith("E") or '"d": 0' in json.dumps(c):      # (family E: programs that must be rejected, and infinite constants: judged by C08)
+        return None
+    c = json.loads(json.dumps(c))
+    for d in c["dom"]:
+        if d["kind"] == "bool":
+            continue
+        lo = -(-d["lo"]["n"] // d["lo"]["d"]) if d["lo"]["inf"] == 0 else -2
+        hi = d["hi"]["n"] // d["hi"]["d"] if d["hi"]["inf"] == 0 else 3
+        if d["kind"] == "nnreal":
+            lo = max(lo, 0)
+        lo, hi = max(lo, -4), min(hi, 4)
+        if lo > hi:
+            return None
+        d.update(kind="int", lo={"inf": 0, "n": lo, "d": 1}, hi={"inf": 0, "n": hi, "d": 1})
+    c["id"] = "K" + c["id"]
+    return c
+
+
 def check(tier, seed, replay=None):
     prop = "C03"
     o = core.Outcome(prop, tier, seed)
@@ -32,8 +53,14 @@ def check(tier, seed, replay=None):
         meta["H"] = {"cases": len(hs), "simulated_behaviours": nsim}
         if tier == "quick":
             hs = hs[:1200]
+        # corpus K (the linearization families A-F: scales, divisions, nested abs / min / max, logic) over enumerable domains
+        ks, kmeta = lin.gen_all("quick", seed, per_family_quick=(250 if tier == "quick" else 6000))
+        ks = [k_ for k_ in (enumerable(c) for c in ks) if k_]
+        for f, m in kmeta.items():
+            meta["K:" + f] = m
+        meta["K:enumerable"] = {"cases": len(ks)}
         cases = []
-        for i, c in enumerate(cs + hs):
+        for i, c in enumerate(cs + hs + ks):
             style = (i + seed) % 2
             c["text"] = render.program_min(c, style=style, named=(i % 3 == 0))
             c["style"] = style
@@ -53,7 +80,7 @@ def check(tier, seed, replay=None):
     o.coverage = {
         "evaluations": len(events),
         "distinct_nontrivial": sum(1 for s in v.stats if 0 < s[4] < s[3]),
-        "rule": "one event = one program: abstract model from ModelGen family G (exhaustive, one constraint) / H (TLC simulation, two constraints) over integer and Boolean"
+        "rule": "one event = one program: abstract model from ModelGen family G (exhaustive, one constraint) / H (TLC simulation, two constraints) / the linearization families A-F restricted to integer and Boolean"
                 " domains, rendered to text with minimal parentheses (keyword or symbolic spelling, implicit multiplication, named rows) and solved by the"
                 " one-shot entry point; judged by complete enumeration of the declared domains; non-trivial = some but not all assignments satisfy the text",
         "samples": samples,
